@@ -666,6 +666,37 @@ func (g *Gen) evalCall(env *Env, x *SExpr) *Val {
 			r.T = g.P.resolveType(x.Args[1].Str, env.pkg)
 		}
 		return r
+	case "funres":
+		// funres(p, args...): the result of the `detfunc` parameter p on these arguments
+		if x.Args[0].Op != "ident" {
+			specErr(x, "funres takes a parameter name")
+		}
+		var as []*Val
+		for _, a := range x.Args[1:] {
+			as = append(as, g.eval(env, a))
+		}
+		return intVal(g.detResTerm(x.Args[0].Name, as, KInt))
+	case "ifslice":
+		// ifslice(v, "[]T"): the slice boxed in interface value v
+		a := g.eval(env, x.Args[0])
+		t := g.P.resolveType(x.Args[1].Str, env.pkg)
+		if t == nil || kindOf(t) != KSlice {
+			specErr(x, "ifslice needs a slice type, got %s", x.Args[1].Str)
+		}
+		return unboxSlice(a.S, t)
+	case "decathead":
+		// decathead(n): the value loop n's decreases term had at its head (for inner loops that must keep it)
+		if x.Args[0].Op != "int" {
+			specErr(x, "decathead takes a loop ordinal")
+		}
+		for h, li := range g.loops {
+			if fmt.Sprint(li.ord) == fmt.Sprint(x.Args[0].Int) {
+				if c, ok := g.variantAtHead[h]; ok {
+					return intVal(c)
+				}
+			}
+		}
+		specErr(x, "decathead: loop %v has no variant in scope", x.Args[0].Int)
 	case "ptr":
 		// ptr(e, "*pkg.T"): type an address term
 		a := g.eval(env, x.Args[0])
